@@ -796,5 +796,33 @@ func poolHandsOutDuplicates() string {
 			tokenizer.PutTokenizer(t)
 		}
 	}
+	if d := astPoolHandsOutDuplicates(); d != "" {
+		res = d
+	}
+	return res
+}
+
+// astPoolHandsOutDuplicates: several tree containers taken from the pool and alive at the same time must be
+// different objects (a container released twice is handed to two holders)
+func astPoolHandsOutDuplicates() string {
+	const n = 6
+	res := ""
+	as := make([]*ast.AST, 0, n)
+	for i := 0; i < n; i++ {
+		a := ast.NewAST()
+		for _, q := range as {
+			if q == a {
+				res = "the tree-container pool handed out the same *ast.AST to two holders at once"
+			}
+		}
+		as = append(as, a)
+	}
+	seen := map[*ast.AST]bool{}
+	for _, a := range as {
+		if !seen[a] {
+			seen[a] = true
+			ast.ReleaseAST(a)
+		}
+	}
 	return res
 }
